@@ -227,6 +227,13 @@ func (s *FeedScenario) Run(tmp string, r *rng.R) {
 				if ended {
 					continue
 				}
+				select {
+				case <-f.done:
+					s.Report("done-early|"+feedKindNames[f.kind]+"|"+actionKind(after), fmt.Sprintf("the done channel of %s feed %d closed after %s although the feed should still be running (and may still deliver)   [script: %s]", feedKindNames[f.kind], f.id, after, strings.Join(s.steps, " ")))
+					f.termed = true
+					continue
+				default:
+				}
 				deadline := time.Now().Add(feedBound)
 				for !f.has(key) && time.Now().Before(deadline) {
 					time.Sleep(500 * time.Microsecond)
@@ -301,6 +308,9 @@ func (s *FeedScenario) Run(tmp string, r *rng.R) {
 				}
 				if !open[h] {
 					return
+				}
+				if open[0] != open[1] && len(s.steps)%2 == 0 {
+					h = 1 - h // delete the bucket through the handle that was closed before (the clean-up idiom)
 				}
 				mu.Lock()
 				open[0], open[1] = false, false
